@@ -40,6 +40,8 @@ def _task(args):
         v["params"] = params
     for s in res.samples:
         s["params"] = params
+    if os.environ.get("SX_DEBUG"):
+        print("JOB %s %s wall=%.1f solver=%.1f paths=%d left=%d" % (hname, json.dumps(params), res.wall_s, res.stats.time_s, res.paths, len(res.leftover)), file=sys.stderr, flush=True)
     return hname, params, res
 
 
